@@ -75,6 +75,7 @@ type machine struct {
 	newJobs    [][]choiceRec
 	pendingVal uint64
 	unknownQ   int // decisions whose feasibility the solver could not decide
+	havocs     int // float operations abstracted to an unconstrained result (§2.9c)
 
 	// symbolic inputs
 	vars    []*term
@@ -108,10 +109,13 @@ type machine struct {
 	symAsserts   int // of which needed the solver
 	events       []string
 	nondetLog    []nondetRec // harness-visible nondet calls in order (for native replay)
+	lazyKey      string         // key of the lazy cell whose generator is running ("" = main flow)
+	lazyCount    map[string]int // lazy slices created so far under each key
 }
 
 // nondetRec: one call of a verifNondet* function. Its model value is evaluated from terms.
 type nondetRec struct {
+	key   string // lazy-cell key the call belongs to ("" = main flow)
 	kind  string // "int", "bytes", "bool", "choice"
 	terms []*term
 	lo    int64
@@ -314,6 +318,14 @@ func (m *machine) concInt(v value, what string) int64 {
 
 // concLen: concrete non-negative length or Go panic.
 func (m *machine) concLen(fr *frame, v value, panicMsg string) int64 {
+	return m.concLenSz(fr, v, panicMsg, 1)
+}
+
+// concLenSz: esz is the element size in bytes; the allocation limit (symAllocLimit) is in bytes.
+func (m *machine) concLenSz(fr *frame, v value, panicMsg string, esz int64) int64 {
+	if esz < 1 {
+		esz = 1
+	}
 	if s, ok := v.(*sym); ok && !s.t.isConst() {
 		neg := m.tf.cmp("bvslt", s.t, m.tf.bv(0, s.t.w))
 		m.asserts++
@@ -321,7 +333,7 @@ func (m *machine) concLen(fr *frame, v value, panicMsg string) int64 {
 		if m.decideBool(neg, "len<0") {
 			m.goPanic(fr, panicMsg)
 		}
-		lim := m.cfg.symAllocLimit
+		lim := m.cfg.symAllocLimit / esz
 		big := m.tf.cmp("bvslt", m.tf.bv(uint64(lim), s.t.w), s.t)
 		if m.decideBool(big, "len>limit") {
 			m.largeAlloc(fr, panicMsg+" (symbolic length above engine limit)")
@@ -331,8 +343,8 @@ func (m *machine) concLen(fr *frame, v value, panicMsg string) int64 {
 	if n < 0 {
 		m.goPanic(fr, panicMsg)
 	}
-	if n > int64(m.cfg.maxAllocElems()) {
-		m.largeAlloc(fr, fmt.Sprintf("%s (%d elements)", panicMsg, n))
+	if n > int64(m.cfg.maxAllocElems()) || (m.cfg.params["alloc_is_violation"] != 0 && n > m.cfg.symAllocLimit/esz) {
+		m.largeAlloc(fr, fmt.Sprintf("%s (%d elements of %d bytes)", panicMsg, n, esz))
 	}
 	return n
 }
@@ -348,7 +360,24 @@ func (m *machine) largeAlloc(fr *frame, what string) {
 
 // ---- globals ----
 
+// constTablePkgs: standard-library packages whose globals are constant tables after init
+// (never written by any function executed later). Their initialisers run once per worker and
+// the resulting objects are shared by all paths of that worker.
+var constTablePkgs = map[string]bool{"strconv": true, "math": true, "math/bits": true, "unicode/utf8": true,
+	"unicode": true, "encoding/hex": true, "encoding/binary": true, "internal/itoa": true, "hash/crc32": false}
+
+func sharedPkg(p *ssa.Package) bool { return p != nil && constTablePkgs[p.Pkg.Path()] }
+
 func (m *machine) global(g *ssa.Global) *object {
+	if sharedPkg(g.Pkg) {
+		if o, ok := m.wk.sharedGlobals[g]; ok {
+			return o
+		}
+		t := g.Type().Underlying().(*types.Pointer).Elem()
+		o := m.newObject(zero(t), "global "+g.String())
+		m.wk.sharedGlobals[g] = o
+		return o
+	}
 	if o, ok := m.globals[g]; ok {
 		return o
 	}
